@@ -37,7 +37,11 @@ func c08RunOne(bc *ugo.Bytecode, w *sim.World, args []ugo.Object) c08Result {
 }
 
 func c08RunVM(vm *ugo.VM, w *sim.World, args []ugo.Object) c08Result {
-	ret, err := vm.Run(w.Globals, args...)
+	return c08RunVMG(vm, w, w.Globals, args)
+}
+
+func c08RunVMG(vm *ugo.VM, w *sim.World, globals ugo.Object, args []ugo.Object) c08Result {
+	ret, err := vm.Run(globals, args...)
 	res := c08Result{out: sim.MakeOutcome(ret, err, w.Hist)}
 	if re, ok := err.(*ugo.RuntimeError); ok {
 		var sb strings.Builder
@@ -49,9 +53,25 @@ func c08RunVM(vm *ugo.VM, w *sim.World, args []ugo.Object) c08Result {
 	return res
 }
 
+// c08RunVMNil runs a script generated with NilGlobals: no globals object, host functions as trailing arguments.
+func c08RunVMNil(vm *ugo.VM, w *sim.World, args []ugo.Object) c08Result {
+	a := append([]ugo.Object{}, args...)
+	for _, n := range []string{"log", "op", "choose", "call", "trace", "WID"} {
+		a = append(a, w.Globals[n])
+	}
+	return c08RunVMG(vm, w, nil, a)
+}
+
 func c08Run(rc *sim.RunCtx) {
 	t := rc.T
-	g := newGen(t, genConfig{Modules: true, Hosts: true, Consts: t.Bool(1, 2), Share: true, Params: true, MaxStmts: 8})
+	// in a fifth of the runs the host passes no globals object (every VM then gets a map of its own from ugo)
+	nilGlobals := t.Bool(1, 5)
+	runVM := c08RunVM
+	if nilGlobals {
+		runVM = c08RunVMNil
+		rc.Probe("vms-run-with-nil-globals")
+	}
+	g := newGen(t, genConfig{Modules: true, Hosts: true, Consts: t.Bool(1, 2), Share: true, Params: true, NilGlobals: nilGlobals, MaxStmts: 8})
 	src, mods := g.program()
 	mm := newModuleMap(append(append([]srcModule{}, fixedModules...), mods...))
 	noOpt := t.Bool(1, 3)
@@ -95,10 +115,10 @@ func c08Run(rc *sim.RunCtx) {
 		capped := false
 		for i := range specs {
 			sc.Steps = 0
-			a := c08RunOne(bc, sim.NewWorld(specs[i], nil), c08Args(i))
+			a := runVM(ugo.NewVM(bc).SetRecover(true), sim.NewWorld(specs[i], nil), c08Args(i))
 			capped = capped || sc.Capped
 			sc.Steps = 0
-			b := c08RunOne(bc, sim.NewWorld(specs[i], nil), c08Args(i))
+			b := runVM(ugo.NewVM(bc).SetRecover(true), sim.NewWorld(specs[i], nil), c08Args(i))
 			capped = capped || sc.Capped
 			if !a.out.Equal(b.out) || a.trace != b.trace {
 				rc.Discard = "workload-not-self-deterministic"
@@ -132,7 +152,7 @@ func c08Run(rc *sim.RunCtx) {
 		worlds[i] = sim.NewWorld(specs[i], nil)
 		vms[i] = ugo.NewVM(bc).SetRecover(true)
 		s.Go("vm-"+c08WIDs[i], func() {
-			conc[i] = c08RunVM(vms[i], worlds[i], c08Args(i))
+			conc[i] = runVM(vms[i], worlds[i], c08Args(i))
 		})
 	}
 	// in a quarter of the runs the host aborts one VM at a drawn instruction: the others must not notice
